@@ -9,7 +9,9 @@ from multidecoder.node import Node
 from multidecoder.registry import decoder
 from multidecoder.xor_helper import apply_xor_key, get_xorkey
 
-HEX_RE = rb"((?:[a-f0-9]{2}){10,}|(?:[A-F0-9]{2}){10,})"
+# The lower case alternative is only taken when the first letter after any leading digits is lower case,
+# otherwise it would stop an upper case run at the end of its leading digits
+HEX_RE = rb"((?=[0-9]*[a-f])(?:[a-f0-9]{2}){10,}|(?:[A-F0-9]{2}){10,})"
 HEX_SPACE_RE = rb"(?i)(?:[a-f0-9]{2}\s+){9,}[a-f0-9]{2}"
 HEX_COMMA_RE = rb"(?i)(?:[a-f0-9]{2}\s*,\s*){9,}[a-f0-9]{2}"
 FROMHEXSTRING_RE = rb"(?i)(\[System.Convert\]::)?FromHexString\('" + HEX_RE + rb"'\)"
